@@ -43,6 +43,17 @@ func (h *pkHarness) observe() {
 		sort.Slice(ids, func(a, b int) bool { return ids[a] < ids[b] })
 		h.obs = append(h.obs, int64(len(ids)))
 		h.obs = append(h.obs, ids...)
+		// the stalled-download marks (Snubbed, Choked) of the piece
+		sn, ch := h.pk.StalledMarks(uint32(i))
+		for _, set := range [][]*peer.Peer{sn, ch} {
+			var ms []int64
+			for _, p := range set {
+				ms = append(ms, h.ids[p])
+			}
+			sort.Slice(ms, func(a, b int) bool { return ms[a] < ms[b] })
+			h.obs = append(h.obs, int64(len(ms)))
+			h.obs = append(h.obs, ms...)
+		}
 	}
 }
 
